@@ -1128,6 +1128,32 @@ class Model:
 
             def visit_Call(self, x):
                 self.generic_visit(x)
+                # {K1: v1, K2: v2}.get(k)   ==>   v1 if k == K1 else v2 if k == K2 else None
+                if isinstance(x.func, ast.Attribute) and x.func.attr == "get" \
+                        and isinstance(x.func.value, ast.Dict) and 1 <= len(x.args) <= 2 \
+                        and not x.keywords and 1 <= len(x.func.value.keys) <= 12 \
+                        and all(k is not None and _plain(k) for k in x.func.value.keys):
+                    e = x.args[1] if len(x.args) == 2 else ast.Constant(value=None)
+                    for k, v in reversed(list(zip(x.func.value.keys, x.func.value.values))):
+                        e = ast.IfExp(test=ast.Compare(left=_cp(x.args[0]), ops=[ast.Eq()],
+                                                       comparators=[k]), body=v, orelse=e)
+                    return ast.copy_location(e, x)
+                # (f if c else g)(args)   ==>   f(args) if c else g(args)
+                if isinstance(x.func, ast.IfExp):
+                    def dist(f):
+                        if isinstance(f, ast.IfExp):
+                            return ast.IfExp(test=f.test, body=dist(f.body), orelse=dist(f.orelse))
+                        if isinstance(f, ast.Constant) and f.value is None:
+                            return f
+                        return self.visit_Call(ast.Call(func=f, args=[_cp(a) for a in x.args],
+                                                        keywords=[_cp(k) for k in x.keywords]))
+                    return ast.copy_location(dist(x.func), x)
+                # operator.add(a, b)   ==>   a + b
+                if isinstance(x.func, ast.Attribute) and isinstance(x.func.value, ast.Name) \
+                        and x.func.value.id == "operator" and x.func.attr in _OPERATOR_FUNCS \
+                        and len(x.args) == 2 and not x.keywords:
+                    return ast.copy_location(ast.BinOp(
+                        left=x.args[0], op=_OPERATOR_FUNCS[x.func.attr](), right=x.args[1]), x)
                 if isinstance(x.func, ast.Name) and x.func.id == "len" and len(x.args) == 1 \
                         and isinstance(x.args[0], ast.Constant) \
                         and isinstance(x.args[0].value, str) and not x.keywords:
@@ -1171,7 +1197,23 @@ class Model:
         def go(stmts, conds):
             for s_ in stmts:
                 if isinstance(s_, ast.Return):
-                    out.append((conds, s_.value))
+                    def rows(v, conds):
+                        w, wrap = v, None
+                        if isinstance(v, ast.Call) and isinstance(v.func, ast.Name) \
+                                and v.func.id == "cast" and len(v.args) == 2:
+                            w, wrap = v.args[1], v
+                        if isinstance(w, ast.IfExp):
+                            t, pol = w.test, True
+                            while isinstance(t, ast.UnaryOp) and isinstance(t.op, ast.Not):
+                                t, pol = t.operand, not pol
+                            txt = ast.unparse(t)
+                            for arm, pl in ((w.body, pol), (w.orelse, not pol)):
+                                val = arm if wrap is None else ast.Call(
+                                    func=wrap.func, args=[wrap.args[0], arm], keywords=[])
+                                rows(val, conds + ((txt, pl),))
+                        else:
+                            out.append((conds, v))
+                    rows(s_.value, conds)
                     return
                 if isinstance(s_, ast.If) and any(isinstance(x, ast.Return)
                                                   for x in _walk_same_scope(s_)):
@@ -1371,6 +1413,10 @@ class Model:
                     yield mi, n
 
 
+_OPERATOR_FUNCS = {"add": ast.Add, "sub": ast.Sub, "mul": ast.Mult, "truediv": ast.Div,
+                   "floordiv": ast.FloorDiv, "mod": ast.Mod, "pow": ast.Pow,
+                   "and_": ast.BitAnd, "or_": ast.BitOr, "xor": ast.BitXor,
+                   "matmul": ast.MatMult, "lshift": ast.LShift, "rshift": ast.RShift}
 _MUTATORS = {"append", "extend", "insert", "add", "update", "pop", "popitem", "remove",
              "discard", "clear", "setdefault", "sort", "reverse", "appendleft",
              "difference_update", "intersection_update", "symmetric_difference_update"}
